@@ -243,6 +243,11 @@ class Shadow:
         ns["__name__"] = self.modname
         ns["__vfw"] = vrt
         ns.update(vrt.REBOUND_BUILTINS)
+        for k, v in SPEC_NAMES.items():
+            ns.setdefault(k, v)
+        for k, v in target.spec.items():
+            if callable(v):
+                ns.setdefault(k, v)
         ns.update(self.overrides)
         if extra_globals:
             ns.update(extra_globals)
@@ -341,8 +346,10 @@ def verify(c: Contract, call: Callable[[Dict[str, Any], Dict[str, Any]], Any],
             except Unsupported:
                 raise
             except Exception as e:
+                if type(e).__name__ == "_Timeout":
+                    raise
                 if _origin_is_engine(e.__traceback__) and not isinstance(e, tuple(EXC_NS[k] for k in c.raises if k in EXC_NS)):
-                    raise Unsupported(f"engine error {type(e).__name__}: {e}")
+                    raise Unsupported(f"engine error {type(e).__name__}: {e} :: " + " <- ".join(f"{f.filename.split('/')[-1]}:{f.lineno}:{f.name}" for f in traceback.extract_tb(e.__traceback__)[-5:]))
                 en = type(e).__name__
                 if en in raise_conds:
                     ctx.check(f"{owner}.raises[{en}].only-when", raise_conds[en],
@@ -370,17 +377,25 @@ def verify(c: Contract, call: Callable[[Dict[str, Any], Dict[str, Any]], Any],
         except PathEnd:
             pass
         except Unsupported as e:
-            undecided = f"{e}"
+            tb = traceback.extract_tb(e.__traceback__)
+            where = [f for f in tb if "/vfw/" not in f.filename]
+            undecided = f"{e}" + (f" [at {where[-1].filename.split('/')[-1]}:{where[-1].lineno} {where[-1].line}]" if where else "")
             for o in ctx.obls:
                 record(o)
             break
         except Exception as e:
+            if type(e).__name__ == "_Timeout":
+                raise
             undecided = "engine crash: " + "".join(traceback.format_exception(e))[-1500:]
             break
         finally:
             sym.set_cur(None)
         for o in ctx.obls:
             record(o)
+        und = [o for o in ctx.obls if o["status"] == "undecided"]
+        if und:   # fail fast: the function is undecided as a whole, the bounded fallback takes over
+            undecided = f"VC {und[0]['name']} undecided: {und[0]['detail'][-300:]}"
+            break
         work.extend(ctx.alts)
     span = ""
     try:
@@ -442,4 +457,4 @@ def _is_concat_of(x, lens, pred):
     finally:
         c.nofork -= 1
     return sym.wrap_expr(z3.And(lift(n) == lift(lens.length()),
-                                z3.ForAll([q], z3.Implies(z3.And(q >= 0, q < lift(n)), body))))
+                                sym.mk_forall(q, z3.And(q >= 0, q < lift(n)), body)))
